@@ -236,6 +236,33 @@ def one_case(ctx, k, kind):
     comp2 = basis.complement_dofs(got.flatten(), gotV.flatten())
     ctx.check("complement", set(comp2.tolist()) == set(range(N)) - want - wantV, mech="complement-two", **tag)
 
+    # complement on bases restricted to a part of the mesh: the universe is still 0..N-1
+    import warnings
+    for bname, bb in (("cell-subset", skfem.CellBasis(mesh, rec.make(), elements=E.astype(np.int32))),
+                      ("facet-basis", skfem.FacetBasis(mesh, rec.make(), facets=F.astype(np.int32))
+                       if (rec.facet_basis and kind not in ("wedge",)) else None)):
+        if bb is None:
+            continue
+        cc = bb.complement_dofs(got)
+        ctx.check("complement", set(cc.tolist()) == set(range(N)) - want, mech=f"complement-on-restricted-basis:{bname}", **tag)
+    # union of two views (the deprecated | / + operators)
+    got2 = basis.get_dofs(F2.astype(np.int32)) if F2.size else None
+    if got2 is not None:
+        with warnings.catch_warnings():
+            warnings.simplefilter("ignore")
+            for opname, un in (("or", got | got2), ("add", got + got2)):
+                ctx.check("spellings-agree", set(un.flatten().tolist()) == closure_facets(np.concatenate([F, F2])),
+                          mech=f"view-union:{opname}", **tag)
+    # a tag name defined twice designates the latest definition
+    if F2.size:
+        m2 = mesh.with_boundaries({"selF": F2.astype(np.int32)})
+        g = skfem.CellBasis(m2, rec.make()).get_dofs("selF")
+        ctx.check("spellings-agree", set(g.flatten().tolist()) == closure_facets(F2), mech="redefined-tag-name", **tag)
+        m3 = mesh.with_subdomains({"selE": E[:1].astype(np.int32)})
+        g = skfem.CellBasis(m3, rec.make()).get_dofs(elements="selE")
+        ctx.check("spellings-agree", set(g.flatten().tolist()) == {int(x) for x in ed[:, E[:1]].ravel()},
+                  mech="redefined-subdomain-name", **tag)
+
     # ---- (1) spellings
     mids = np.asarray(mesh.p)[:, facets].mean(axis=1)
     pred = midpoint_predicate(mids[:, F], h)
